@@ -287,6 +287,29 @@ func c17Run(rc *engine.RunCtx) *engine.Result {
 			}
 		}
 	}
+	// 5a. long sibling paths (a sparse tree is a legal commitment: the root is whatever the fold gives):
+	// lengths around every power of two up to 64 and well past it, folded by the independent implementation
+	for _, depth := range []int{15, 16, 17, 31, 32, 33, 40, 63, 64, 65, 100} {
+		leaf := ref.Leaf(1, 7, "deep-from", "deep-to", "uinit", 5)
+		var proof [][]byte
+		cur := leaf
+		for k := 0; k < depth; k++ {
+			sib := ref.Sum256([]byte(fmt.Sprintf("sibling %d of %d", k, depth)))
+			proof = append(proof, append([]byte{}, sib[:]...))
+			cur = ref.Node(cur[:], sib[:])
+		}
+		m := c17Layout(proof, make([]int, len(proof)))
+		states++
+		evals++
+		got := ophosttypes.GenerateRootHashFromProofs(leaf, m.slices)
+		name := fmt.Sprintf("root-from-proofs(path of %d siblings)", depth)
+		if got != cur {
+			report(tagged(viol("root-depends-only-on-byte-values", "%s = %x.., expected %x..", name, got[:4], cur[:4]), "function", "GenerateRootHashFromProofs"), name)
+		}
+		if m.mutated() {
+			report(tagged(viol("verification-never-modifies-caller-bytes", "%s modified the caller's proof memory", name), "function", "GenerateRootHashFromProofs"), name)
+		}
+	}
 	// 5b. history independence: every ordered pair (and, thorough, triple) of calls whose inputs are
 	// written into the SAME memory (one outer list, one buffer per element, overwritten in place
 	// between calls) — the answer to each call is the reference's answer for the bytes it was given,
